@@ -168,7 +168,13 @@ impl ast::Visit for Visitor<'_, '_> {
                 }
             },
 
-            ast::StmtKind::CallSub { .. } => unimplemented!("need to check arg types against signature"),
+            ast::StmtKind::CallSub { func, .. } => {
+                // (this syntax is reserved; nothing downstream can compile it yet)
+                self.errors.set(self.emit(error!(
+                    message("explicit sub call syntax is not supported yet"),
+                    primary(func, "unsupported syntax"),
+                )));
+            },
 
             // free-standing blocks contain statements that need checking
             ast::StmtKind::Block { .. } => ast::walk_stmt(self, stmt),
